@@ -19,7 +19,7 @@ LayerA == IF After = Exp THEN "ok"
           ELSE IF \E v \in Exp \ After : Named(v) THEN "OverSilenced"
           ELSE "OtherChanged"
 
-TraceInit == tid = 1 /\ form = "sameLine" /\ spelling = "fullId" /\ placement = "on" /\ stack = "none" /\ done = FALSE
+TraceInit == tid = 1 /\ form = "sameLine" /\ spelling = "fullId" /\ placement = "on" /\ stack = "none" /\ lead = "none" /\ done = FALSE
 TraceNext == /\ tid <= Len(Traces)
              /\ PrintT(<<"VERDICT", tid, LayerA, "ok", 0>>)
              /\ tid' = tid + 1 /\ UNCHANGED vars
